@@ -38,7 +38,18 @@ RULE = ("(i) every tool x writer x --backup x stale-.bak x document combination 
         "regular file, link to an unrelated file, dangling link, link to the target, link to the file the target resolves to): "
         "after exit 0 the bytes read THROUGH target.bak must equal the bytes read through the target before the run, and "
         "target.bak must not resolve to the inode the target resolves to (direct check on the real files; links are outside "
-        "the Lean file-system model, these runs are not compared with it).  distinct_nontrivial = distinct runs whose "
+        "the Lean file-system model, these runs are not compared with it); (v) writer faults: every writer (yaml-set YAML/JSON, "
+        "yaml-merge --overwrite YAML/JSON, eyaml-rotate-keys) x document x {no --backup, --backup, --backup + stale .bak} run with "
+        "the document writer (ruamel YAML.dump/dump_all, json.dump on a real file) replaced by 'render the text, write its first "
+        "n characters (n = 0, 1, half, all but one, all) to the stream, then raise E' for E in AssertionError, OSError(ENOSPC), "
+        "RuntimeError, ruamel YAMLError: judged once the tool process has ended (every handle closed): with --backup the target "
+        "or the .bak must hold the original bytes; (vi) sequences: 2-4 yaml-set runs in a row on ONE hand-formatted file (random "
+        "indent 2-4, aligned values, comments, with/without '---', unindented sequences, quoted scalars; pretty-printed JSON), "
+        "steps drawn from {set a value to its present value, real change, the previous step again, re-apply a tag, same value "
+        "with another --format, --delete, an unmatched --mustexist path}, with/without a stale .bak at the start, mostly with "
+        "--backup: after EVERY step the clause is judged against the bytes the harness read right before that step: exit 0 with "
+        "--backup => FILE.bak equals that pre-image byte for byte; non-zero exit => nothing changed or appeared "
+        "(direct checks, not compared with the Lean model).  distinct_nontrivial = distinct runs whose "
         "tool got as far as reading its input.")
 
 PY = "/venv/bin/python"
@@ -255,6 +266,98 @@ def run_linked(case, d, sub):
     return {"rc": p.returncode, "dir": d, "pre": pre, "post": post, "stderr": p.stderr.decode("utf-8", "replace")[-300:]}
 
 
+# The tool's main() with the document writer replaced: "render, write the first n characters, raise".  Only dumps to a real
+# file (a stream with a file name that is not stdout/stderr) are faulted; the `when`-th such dump fails.
+DUMP_RUNNER = r"""
+import errno, gc, importlib, io, json, sys, traceback
+spec = json.loads(sys.argv[1]); tool = sys.argv[2]; sys.argv = [tool.replace("_", "-")] + sys.argv[3:]
+import ruamel.yaml
+from ruamel.yaml.error import YAMLError
+state = {"n": 0}
+def is_file(stream):
+    return (stream is not None and stream not in (sys.stdout, sys.stderr, sys.__stdout__, sys.__stderr__)
+            and isinstance(getattr(stream, "name", None), str))
+def cut(text):
+    c = spec["cut"]
+    return {"0": 0, "1": min(1, len(text)), "half": len(text) // 2, "last": max(0, len(text) - 1), "all": len(text)}[c]
+def make_exc():
+    e = spec["exc"]
+    if e == "AssertionError": return AssertionError("injected emitter failure")
+    if e == "OSError": return OSError(errno.ENOSPC, "No space left on device (injected)")
+    if e == "RuntimeError": return RuntimeError("injected writer failure")
+    if e == "YAMLError": return YAMLError("injected writer failure")
+    raise SystemExit(97)
+def emit(stream, text):
+    state["n"] += 1
+    if state["n"] != spec.get("when", 1):
+        stream.write(text); return
+    stream.write(text[:cut(text)])
+    sys.stderr.write("\nYPV-DUMP-FAULT-FIRED\n"); sys.stderr.flush()
+    raise make_exc()
+real_dump, real_dump_all, real_jdump = ruamel.yaml.YAML.dump, ruamel.yaml.YAML.dump_all, json.dump
+def ydump(self, data, stream=None, **kw):
+    if not is_file(stream): return real_dump(self, data, stream, **kw)
+    buf = io.StringIO(); real_dump(self, data, buf, **kw); emit(stream, buf.getvalue())
+def ydump_all(self, docs, stream=None, **kw):
+    if not is_file(stream): return real_dump_all(self, docs, stream, **kw)
+    buf = io.StringIO(); real_dump_all(self, docs, buf, **kw); emit(stream, buf.getvalue())
+def jdump(obj, fp, **kw):
+    if not is_file(fp): return real_jdump(obj, fp, **kw)
+    buf = io.StringIO(); real_jdump(obj, buf, **kw); emit(fp, buf.getvalue())
+ruamel.yaml.YAML.dump, ruamel.yaml.YAML.dump_all, json.dump = ydump, ydump_all, jdump
+mod = importlib.import_module("yamlpath.commands." + tool)
+rc = 0
+try:
+    mod.main()
+except SystemExit as ex:
+    rc = ex.code if isinstance(ex.code, int) else (0 if ex.code is None else 1)
+except BaseException:
+    traceback.print_exc(); rc = 1
+gc.collect()
+sys.exit(rc)
+"""
+
+
+def tool_env():
+    env = dict(os.environ)
+    env["PYTHONPATH"] = core.REPO
+    env[core.GUARD] = "1"
+    env.pop("YPV_EYAML_LOG", None)
+    env.pop("YPV_EYAML_FAULT", None)
+    return env
+
+
+def run_dumpfault(case, d, sub):
+    """a run whose document writer writes a prefix of its output and then raises: no strace; the files are read after
+    the tool PROCESS has ended, i.e. after main() has unwound and every handle was closed"""
+    before = snapshot(d)
+    cmd = [PY, "-W", "ignore", "-c", DUMP_RUNNER, json.dumps(case["dumpfault"]), case["tool"]] + [sub(a) for a in case["args"]]
+    try:
+        p = subprocess.run(cmd, cwd=core.REPO, env=tool_env(), stdin=subprocess.DEVNULL, stdout=subprocess.PIPE,
+                           stderr=subprocess.PIPE, timeout=RUN_TIMEOUT)
+    except subprocess.TimeoutExpired:
+        return {"timeout": True, "dir": d}
+    err = p.stderr.decode("utf-8", "replace")
+    return {"rc": p.returncode, "dir": d, "before": before, "after": snapshot(d), "fired": "YPV-DUMP-FAULT-FIRED" in err,
+            "stderr": err[-300:]}
+
+
+def run_seq(case, d, sub):
+    """several tool runs in a row on the same directory; the directory is read by the harness right before and right
+    after every step"""
+    steps = []
+    for st in case["steps"]:
+        pre = snapshot(d)
+        cmd = [PY, "-W", "ignore", "-m", "yamlpath.commands." + case["tool"]] + [sub(a) for a in st["args"]]
+        try:
+            p = subprocess.run(cmd, cwd=core.REPO, env=tool_env(), stdin=subprocess.DEVNULL, stdout=subprocess.PIPE,
+                               stderr=subprocess.PIPE, timeout=RUN_TIMEOUT)
+        except subprocess.TimeoutExpired:
+            return {"timeout": True, "dir": d}
+        steps.append({"rc": p.returncode, "pre": pre, "post": snapshot(d), "stderr": p.stderr.decode("utf-8", "replace")[-300:]})
+    return {"rc": steps[-1]["rc"] if steps else 0, "dir": d, "steps": steps}
+
+
 def run_case(case):
     """Materialise the case in its own directory, run the tool (under strace), collect everything."""
     d = tempfile.mkdtemp(prefix="c17-", dir=SCRATCH_ROOT)
@@ -275,6 +378,10 @@ def run_case(case):
         watch = [os.path.join(d, w) for w in case["watch"]]
         if case["kind"] == "linked":
             return run_linked(case, d, sub)
+        if case["kind"] == "dumpfault":
+            return run_dumpfault(case, d, sub)
+        if case["kind"] == "seq":
+            return run_seq(case, d, sub)
         before = snapshot(d)
         tracefile = os.path.join(SCRATCH_ROOT, os.path.basename(d) + ".trace")
         cmd = [STRACE, "-f", "-y", "-xx", "-s", "4000000", "-o", tracefile]
@@ -663,6 +770,232 @@ def judge_linked(chk, case, res):
                       "stored nowhere" % (form, case["target"]), replayable(case))
 
 
+# --------------------------------------------------------------------------- (v) writer faults
+
+DUMP_CUTS = ("0", "1", "half", "last", "all")
+DUMP_EXCS = ("AssertionError", "OSError", "RuntimeError", "YAMLError")
+
+
+def dumpfault_cases(tier, rng):
+    """(v) the document writer writes the first n characters of its output to the file and then raises"""
+    rhs = "b:\n  - z\nnew: {k: v}\n"
+    rot = ["-x", FAKE_EYAML, "-r", "{D}/priv2", "-u", "{D}/pub2", "-i", "{D}/priv1", "-c", "{D}/pub1"]
+    # (tool, writer, target, files, arguments without -b, documents)
+    writers = []
+    for dn in ("small", "anch", "uni", "big"):
+        ch = {"small": ["-g", "a", "-a", "2"], "anch": ["-g", "a", "-a", "changed"], "uni": ["-g", "c.d", "-a", "new text"],
+              "big": ["-g", "key0007", "-a", "edited"]}[dn]
+        writers.append(("yaml_set", "setYaml", "t.yaml", {"t.yaml": YAML_DOCS[dn]}, ch + ["{D}/t.yaml"], dn))
+    writers.append(("yaml_set", "setJson", "t.json", {"t.json": DOC_JSON}, ["-g", "a", "-a", "2", "{D}/t.json"], "json"))
+    for dn in ("small", "big"):
+        writers.append(("yaml_merge", "mergeOverwrite", "l.yaml", {"l.yaml": YAML_DOCS[dn], "r.yaml": rhs},
+                        ["-S", "-w", "{D}/l.yaml", "{D}/l.yaml", "{D}/r.yaml"], dn))
+    writers.append(("yaml_merge", "mergeOverwrite", "l.yaml", {"l.yaml": DOC_SMALL, "r.yaml": rhs},
+                    ["-S", "-D", "json", "-w", "{D}/l.yaml", "{D}/l.yaml", "{D}/r.yaml"], "small-json"))
+    writers.append(("yaml_merge", "mergeOverwrite", "l.yaml",
+                    {"l.yaml": multi_text(["a: 1\nl:\n  - x\n", "b: 2\n"]), "r.yaml": multi_text(["c: 3\n", "d:\n  e: 4\n"])},
+                    ["-S", "-M", "matrix_merge", "-w", "{D}/l.yaml", "{D}/l.yaml", "{D}/r.yaml"], "multi"))
+    for dn, doc in (("rot1", ROT_DOC1), ("rot2", ROT_DOC2)):
+        files = dict(KEYS)
+        files["t.yaml"] = doc
+        writers.append(("eyaml_rotate_keys", "rotate", "t.yaml", files, rot + ["{D}/t.yaml"], dn))
+    cases = []
+    for tool, writer, tgt, files, args, dn in writers:
+        full = tier != "quick" or (tool == "yaml_set" and dn in ("small", "big", "json"))
+        for backup, stale in ((True, False), (True, True), (False, False)):
+            combos = [(c, e) for c in DUMP_CUTS for e in DUMP_EXCS]
+            if not full:
+                # every cut and every exception kind at least once, AssertionError (the handled one) with every cut
+                combos = [(c, "AssertionError") for c in DUMP_CUTS] + [(rng.choice(DUMP_CUTS), e) for e in DUMP_EXCS[1:]]
+            for cutname, exc in combos:
+                fs = dict(files)
+                if stale:
+                    fs[tgt + ".bak"] = "STALE BACKUP\n"
+                cases.append({"kind": "dumpfault", "tool": tool, "writer": writer, "doc": dn, "backup": backup, "stale": stale,
+                              "files": fs, "target": tgt, "watch": [tgt, tgt + ".bak"], "dumpfault": {"cut": cutname, "exc": exc, "when": 1},
+                              "args": (["-b"] if backup else []) + args})
+    return cases
+
+
+def judge_dumpfault(chk, case, res):
+    tag = "%s/%s" % (case["tool"], case["writer"])
+    df = case["dumpfault"]
+    tgt, bak = case["target"], case["target"] + ".bak"
+    before, after = res["before"], res["after"]
+    orig = before.get(tgt)
+    how = "writer wrote %s of its output, then raised %s" % (
+        {"0": "nothing", "1": "1 character", "half": "half", "last": "all but the last character", "all": "all"}[df["cut"]], df["exc"])
+    if not res["fired"]:
+        chk.count("dumpfault:not-reached")
+        chk.disagreement("dumpfault-not-reached:" + tag, "the run never dumped to a file (exit %d): %s" % (res["rc"], res["stderr"][-160:]),
+                         replayable(case))
+        return
+    chk.count("dumpfault:exc=" + df["exc"])
+    chk.count("dumpfault:cut=" + df["cut"])
+    if res["rc"] == 0:
+        chk.disagreement("fault-swallowed:%s:dump" % tag, "exit 0 although the %s" % how, replayable(case))
+    if case["backup"]:
+        if after.get(tgt) != orig and after.get(bak) != orig:
+            chk.violation("fault-lost-original:%s:dump:%s" % (tag, df["exc"]),
+                          "%s (exit %d): after the tool has ended neither %s (%s) nor %s (%s) holds the complete original bytes" % (
+                              how, res["rc"], tgt, "missing" if after.get(tgt) is None else "%d bytes, original %d" % (
+                                  len(after[tgt]), len(orig or b"")), bak, "missing" if after.get(bak) is None else "other bytes"),
+                          replayable(case))
+        else:
+            chk.count("dumpfault:original-kept-in-" + ("target" if after.get(tgt) == orig else "bak"))
+    else:
+        # without --backup the property promises nothing; the tool itself does ("The original file content was restored")
+        chk.count("dumpfault:no-backup:" + ("target-intact" if after.get(tgt) == orig else "target-damaged"))
+        if res["rc"] == 3 and after.get(tgt) != orig:
+            chk.disagreement("restore-incomplete:%s:dump" % tag, "%s, exit 3 (restore path) but the target is not the original" % how,
+                             replayable(case))
+
+
+# --------------------------------------------------------------------------- (vi) sequences on hand-formatted files
+
+SEQ_LEAVES = [("service.name", "billing", "ledger"), ("service.port", "8080", "9090"), ("service.hosts[0]", "alpha.example.com", "gamma.example.com"),
+              ("flag", "true", "false"), ("note", "quoted text", "other text"), ("limits.ratio", "0.5", "0.75")]
+
+
+def hand_yaml(rng):
+    """the same data in somebody's own formatting (never the tool's: 2 spaces, '---', single space after ':')"""
+    ind = " " * rng.choice([2, 3, 4, 4])
+    pad = lambda k, w: ":" + " " * (rng.choice([1, w - len(k) + 1]) if w else 1)
+    w = rng.choice([0, 8, 10])
+    seq_ind = rng.choice(["", ind])
+    q = rng.choice(["'", '"'])
+    cm = lambda: rng.choice(["", "", "  # " + rng.choice(["keep", "see ticket 12", "default"])])
+    lines = []
+    if rng.random() < 0.6:
+        lines.append("# hand-maintained settings")
+    if rng.random() < 0.3:
+        lines.append("---")
+    lines += ["service:",
+              ind + "name" + pad("name", w) + "billing" + cm(),
+              ind + "port" + pad("port", w) + "8080" + cm(),
+              ind + "hosts:",
+              ind + seq_ind + "- alpha.example.com",
+              ind + seq_ind + "- beta.example.com" + cm()]
+    if rng.random() < 0.5:
+        lines.append("")
+    lines += ["flag" + pad("flag", w) + "true",
+              "note" + pad("note", w) + q + "quoted text" + q + cm(),
+              "limits:" + cm(),
+              ind + "ratio" + pad("ratio", w) + "0.5"]
+    if rng.random() < 0.4:
+        lines.append(ind + "sizes" + pad("sizes", w) + rng.choice(["[1, 2, 3]", "[ 1,2,3 ]"]))
+    text = "\n".join(lines) + "\n"
+    if text.startswith("---\n") and ind == "  " and w == 0 and "#" not in text:
+        text = "# settings\n" + text
+    return text
+
+
+def hand_json(rng):
+    data = {"service": {"name": "billing", "port": 8080, "hosts": ["alpha.example.com", "beta.example.com"]}, "flag": True,
+            "note": "quoted text", "limits": {"ratio": 0.5}}
+    return json.dumps(data, indent=rng.choice([1, 3, 4, 8]), sort_keys=rng.random() < 0.5) + "\n"
+
+
+def seq_cases(tier, rng):
+    """(vi) short sequences of yaml-set runs on one hand-formatted file"""
+    n = 40 if tier == "quick" else 160
+    cases = []
+    for i in range(n):
+        js = i % 5 == 4
+        tgt = "t.json" if js else "t.yaml"
+        files = {tgt: hand_json(rng) if js else hand_yaml(rng)}
+        stale = rng.random() < 0.4
+        if stale:
+            files[tgt + ".bak"] = "STALE BACKUP\n"
+        present = {p: v for p, v, _ in SEQ_LEAVES}
+        deleted = set()
+        steps = []
+        prev = None
+        for j in range(rng.choice([2, 2, 3, 4])):
+            kinds = ["same", "same", "change", "format", "fail"] + (["tag", "delete"] if not js else []) + (["again", "again"] if prev else [])
+            # the first sequences always contain the plain classes
+            kind = ("same" if j == 0 else "again") if i < 6 and j < 2 else (("change" if j == 0 else "again") if i < 12 and j < 2 else rng.choice(kinds))
+            live = [l for l in SEQ_LEAVES if l[0] not in deleted]
+            path, _v0, alt = rng.choice(live)
+            expect = "ok"
+            if kind == "again":
+                st = dict(prev)
+                st["what"] = "again:" + prev["what"]
+                if prev["what"].endswith("delete"):
+                    st["expect"] = "any"          # a second --delete finds nothing (refused) or the next list element
+                steps.append(st)
+                continue
+            if kind == "same":
+                args = ["-g", path, "-a", present[path]]
+            elif kind == "change":
+                new = alt if present[path] != alt else _v0
+                args = ["-g", path, "-a", new]
+                present[path] = new
+            elif kind == "format":
+                args = ["-g", path, "-a", present[path], "-F", rng.choice(["bare", "default"])]
+            elif kind == "tag":
+                args = ["-g", path, "--tag", "!cfg"]
+                expect = "any"                    # ruamel.yaml cannot emit every tagged scalar: the save itself may fail
+            elif kind == "delete":
+                args = ["-g", path, "--delete"]
+                deleted.add(path)
+            else:
+                args = ["-g", "/nothing/here/" + str(j), "-a", "v", "--mustexist"]
+                expect = "fail"
+            backup = rng.random() < 0.85 or i < 12
+            st = {"what": kind, "backup": backup, "expect": expect, "args": args + (["-b"] if backup else []) + ["{D}/" + tgt]}
+            steps.append(st)
+            if expect != "fail":
+                prev = st
+        cases.append({"kind": "seq", "tool": "yaml_set", "writer": "setJson" if js else "setYaml", "doc": "hand-json" if js else "hand-yaml",
+                      "backup": True, "stale": stale, "files": files, "target": tgt, "watch": [tgt, tgt + ".bak"], "steps": steps,
+                      "args": []})
+    return cases
+
+
+def judge_seq(chk, case, res):
+    tag = "%s/%s" % (case["tool"], case["writer"])
+    tgt, bak = case["target"], case["target"] + ".bak"
+    for i, (st, r) in enumerate(zip(case["steps"], res["steps"])):
+        pre, post = r["pre"], r["post"]
+        where = "step %d of %d (%s: %s)" % (i + 1, len(case["steps"]), st["what"], " ".join(st["args"][:-1]))
+        chk.count("seq-step:" + st["what"].split(":")[0])
+        chk.count("seq-exit:%s" % ("0" if r["rc"] == 0 else "nonzero"))
+        if r["rc"] != 0:
+            changed = sorted(k for k in set(pre) | set(post) if pre.get(k) != post.get(k))
+            if st["expect"] == "fail":
+                # a cause detected before writing (unmatched required path)
+                if changed:
+                    chk.violation("prewrite-exit-changed-files:yaml_set:seq", "%s: exit %d but files changed/appeared: %s" % (
+                        where, r["rc"], changed), replayable(case))
+                continue
+            # the run failed on its own, possibly while writing (e.g. the YAML writer cannot emit a tagged number): only
+            # the last clause applies - with --backup the target or the .bak holds the pre-image
+            chk.count("seq:unplanned-failure" + (":files-changed" if changed else ""))
+            if st["backup"] and post.get(tgt) != pre.get(tgt) and post.get(bak) != pre.get(tgt):
+                chk.violation("fault-lost-original:%s:seq" % tag, "%s: exit %d, neither the target nor the .bak holds the bytes the "
+                              "file had before this step" % (where, r["rc"]), replayable(case))
+            if st["expect"] == "ok" and not changed:
+                chk.disagreement("success-case-failed:%s:seq" % tag, "%s: expected a successful run, exit %d: %s" % (
+                    where, r["rc"], r["stderr"][-160:]), replayable(case))
+            return
+        if st["expect"] == "fail":
+            chk.disagreement("failure-case-succeeded:%s:seq" % tag, "%s: expected a refused run, exit 0" % where, replayable(case))
+        if not st["backup"]:
+            continue
+        if post.get(bak) != pre.get(tgt):
+            state = ("absent" if post.get(bak) is None else "stale" if post.get(bak) == pre.get(bak) else
+                     "new-content" if post.get(bak) == post.get(tgt) else "other")
+            chk.violation("backup-not-preimage:%s:seq:%s" % (tag, state),
+                          "%s: exit 0 with --backup, the target was %s, but %s %s" % (
+                              where, "rewritten with other bytes" if post.get(tgt) != pre.get(tgt) else "left with the same bytes", bak,
+                              {"absent": "does not exist", "stale": "still holds what it held before this run, not this run's pre-image",
+                               "new-content": "holds the NEW content", "other": "holds other bytes than the pre-image"}[state]),
+                          replayable(case))
+            return
+        chk.count("seq:backup-is-preimage" + (":rewritten" if post.get(tgt) != pre.get(tgt) else ":same-bytes"))
+
+
 def inject_cases(succ_results, tier, rng):
     """One case per (syscall name, ordinal) of every successful traced run."""
     out = []
@@ -812,12 +1145,19 @@ def run(chk: core.Check):
         res = run_all([case])[0]
         print("replay: rc=%s before=%s after=%s" % (res.get("rc"), {k: len(v) for k, v in res.get("before", {}).items()},
                                                      {k: len(v) for k, v in res.get("after", {}).items()}))
-        stage1 = [case] if case["kind"] not in ("inject", "linked") else []
+        for i, r in enumerate(res.get("steps", []) if case["kind"] == "seq" else []):
+            print("replay: step %d rc=%s pre=%s post=%s" % (i + 1, r["rc"], {k: len(v) for k, v in r["pre"].items()},
+                                                            {k: len(v) for k, v in r["post"].items()}))
+        stage1 = [case] if case["kind"] not in ("inject", "linked", "dumpfault", "seq") else []
         stage2 = [case] if case["kind"] == "inject" else []
         stage3 = [case] if case["kind"] == "linked" else []
         r1 = [res] if stage1 else []
         r2 = [res] if stage2 else []
         r3 = [res] if stage3 else []
+        stage4 = [case] if case["kind"] == "dumpfault" else []
+        stage5 = [case] if case["kind"] == "seq" else []
+        r4 = [res] if stage4 else []
+        r5 = [res] if stage5 else []
     else:
         stage1 = success_cases(tier) + multidoc_success_cases(tier) + prewrite_cases(tier)
         rng.shuffle(stage1)
@@ -827,6 +1167,25 @@ def run(chk: core.Check):
         r2 = run_all(stage2)
         stage3 = linked_cases(tier)
         r3 = run_all(stage3)
+        stage4 = dumpfault_cases(tier, rng)
+        r4 = run_all(stage4)
+        stage5 = seq_cases(tier, rng)
+        r5 = run_all(stage5)
+
+    # ---- (v) writer faults and (vi) sequences: direct checks of the property's clauses on the real files
+    for case, res in list(zip(stage4, r4)) + list(zip(stage5, r5)):
+        if res.get("timeout"):
+            raise core.Infra("tool run timed out: " + json.dumps(brief(case))[:300])
+        chk.count("kind:" + case["kind"])
+        chk.count("tool:" + case["tool"])
+        if case["kind"] == "dumpfault":
+            chk.seen(("dumpfault", case["tool"], tuple(case["args"]), case["doc"], case["stale"], tuple(sorted(case["dumpfault"].items())))
+                     if res.get("fired") else None)
+            judge_dumpfault(chk, case, res)
+        else:
+            ok_steps = sum(1 for r in res["steps"] if r["rc"] == 0)
+            chk.seen(("seq", json.dumps(case["files"], sort_keys=True), json.dumps(case["steps"], sort_keys=True)) if ok_steps else None)
+            judge_seq(chk, case, res)
 
     # ---- (iv) symbolic links: direct check only (the model's file system has no links)
     for case, res in zip(stage3, r3):
@@ -949,7 +1308,9 @@ def run(chk: core.Check):
                     chk.disagreement("fault-cleanup:%s:%s" % (tag, case["inject"][0]),
                                      "after the fault the tool performed steps other than flushes to open files: %s" % (
                                          [(s["k"], os.path.basename(s["p"])) for s in post_steps][:8]), replayable(case))
-    chk.extra_cov["tool_runs"] = len(allc) + len(stage3)
+    chk.extra_cov["tool_runs"] = len(allc) + len(stage3) + len(stage4) + sum(len(c["steps"]) for c in stage5)
+    chk.extra_cov["writer_fault_runs"] = len(stage4)
+    chk.extra_cov["sequences"] = len(stage5)
     chk.extra_cov["linked_runs"] = len(stage3)
     chk.extra_cov["fault_injections"] = len(stage2)
     chk.notes.append("faults below the system-call level (torn pages, power loss) are outside the model")
